@@ -114,7 +114,7 @@ theorem c11_repeated_sleep_request (g : Gw) (d : UInt16) (h : g.st = .asleep) :
     (g.handleSleep d).buffer = g.buffer ∧ (g.handleSleep d).st = .asleep ∧
     (g.handleSleep d).outs = (g.now, Out.sn (encode (.disconnect 0))) :: g.outs := by
   unfold handleSleep clearBufferUnlessAsleep maybeSleepPinger
-  split <;> simp [h, snSendNow, emit, setSt, startSleepPinger]
+  split <;> simp [h, snSendNow, emit, setSt, startSleepPinger, cancelSleepPinger]
 
 /-- non-vacuity: two queued packets come out oldest first, then PINGRESP -/
 example : (((Gw.init ⟨false, none, none, 10, 2, []⟩ 1 10).setSt .asleep |>.snSend (.pubrec 1) |>.snSend (.pubrec 2)
